@@ -737,7 +737,21 @@ REFINEMENT_THEOREMS = {
     "Cmp_rm32_r32": ("C02", "C02_alu_rm32_r32"), "And_rm32_r32": ("C02", "C02_alu_rm32_r32"),
     "Mov_r32_rm32": ("C01", "C01_mov_cmov_r32_rm32"), "Cmovae_r32_rm32": ("C01", "C01_mov_cmov_r32_rm32"),
     "Cmove_r32_rm32": ("C01", "C01_mov_cmov_r32_rm32"), "Cmovne_r32_rm32": ("C01", "C01_mov_cmov_r32_rm32"),
+    "Movsxd_r64_rm32": ("C01", "C01_movsxd_r64_rm32"), "Movzx_r32_rm8": ("C01", "C01_movzx_r32_rm8"),
+    "Movzx_r64_rm8": ("C01", "C01_movzx_r64_rm8"),
+    "Jmp_rm64": ("C03", "C03_jmp_rm64"), "Call_rm64": ("C03", "C03_call_rm64"),
+    "Test_rm64_r64": ("C02", "C02_test_rm64_r64"), "Test_rm32_r32": ("C02", "C02_test_rm32_r32"),
+    "Adc_r64_rm64": ("C02", "C02_adc_64"), "Adc_rm64_r64": ("C02", "C02_adc_64"),
 }
+for _f in ("Cdqe", "Cqo", "Cdq", "Cld", "Nopw", "Nopd", "Nopq", "Nop_rm16", "Nop_rm32", "Nop_rm64", "Endbr64"):
+    REFINEMENT_THEOREMS[_f] = ("C01", "C01_simple")
+for _op in ("Add", "Sub", "Cmp", "And"):
+    for _sfx, _thm in (("rm64_imm8", "C02_alu_rm64_imm"), ("rm64_imm32", "C02_alu_rm64_imm"), ("RAX_imm32", "C02_alu_rm64_imm"),
+                       ("rm32_imm8", "C02_alu_rm32_imm"), ("rm32_imm32", "C02_alu_rm32_imm"), ("EAX_imm32", "C02_alu_rm32_imm")):
+        REFINEMENT_THEOREMS["%s_%s" % (_op, _sfx)] = ("C02", _thm)
+for _op in ("Inc", "Dec", "Neg", "Not"):
+    REFINEMENT_THEOREMS["%s_rm64" % _op] = ("C02", "C02_unary_rm64")
+    REFINEMENT_THEOREMS["%s_rm32" % _op] = ("C02", "C02_unary_rm32")
 
 
 def refined_forms():
@@ -806,6 +820,24 @@ def instr_check(prop_id, tier, seed, gen_filter=None, extra_cases=None, with_hw=
                         hardware="host CPU via hw/hwrun" if hw else "not run")
     refined = refined_forms()
     res["extra"]["forms_with_refinement_theorem"] = refined
+    # the shape hypotheses of those theorems (operand count / kinds / register classes / immediate kinds)
+    # against what iced actually delivered for every decoded case of this run
+    import shapes
+    nshape, badshape = 0, []
+    for cid, c in zip(ids, cases):
+        if c["codename"] not in refined:
+            continue
+        dec = [l for l in impl.get(cid, []) if l.startswith("x dec")]
+        if not dec:
+            continue
+        r = shapes.check(c["codename"], dec[-1])
+        if r is None:
+            continue
+        nshape += 1
+        if not r[0]:
+            badshape.append("%s: %s" % (c["codename"], r[1]))
+    res["extra"]["theorem_shape_hypotheses_checked"] = nshape
+    res["extra"]["theorem_shape_hypotheses_violated"] = badshape[:5]
     # relative branches are covered by C03_relative_branches (new RIP, untaken = no change)
     res["extra"]["unproved_forms"] = sorted(k for k in per_code if k not in refined and "_rel" not in k)
     res["trusted"] = ["Spec/ISA.v + Spec/CodeSem.v as the statement of what an x86-64 CPU does; validated on this run against the host "
@@ -822,6 +854,9 @@ def instr_check(prop_id, tier, seed, gen_filter=None, extra_cases=None, with_hw=
                 len(tb), prof, cid, first[0], first[1])))
             if len(violations) < 3 and prop_id == "C19" and any("panic" in l for l in ti.get(cid, [])):
                 pass
+    if badshape:
+        broken.append(("theorem-shape-hypothesis", "%d decoded cases do not satisfy the operand shape a refinement theorem "
+                       "assumes, e.g. %s" % (len(badshape), badshape[0])))
     if len(hwbad) > max(3, len(hw) // 2000):
         cid, k, d = hwbad[0]
         broken.append(("spec-vs-hardware", "%d disagreements, e.g. %s %s %s" % (len(hwbad), cid, k, d)))
@@ -868,7 +903,8 @@ def known_for_any(prop_id):
 
 @prop("C01")
 def c01(tier, seed, **kw):
-    res = instr_check("C01", tier, seed, extra_cases=instr_gen.generate_edge_sweep(harnesses()["release"], seed + 1))
+    res = instr_check("C01", tier, seed, extra_cases=instr_gen.generate_edge_sweep(harnesses()["release"], seed + 1) +
+                      instr_gen.generate_pair_sweep(harnesses()["release"], seed + 101))
     # the set of implemented forms does not shrink: every pinned form still has a non-stub body
     import json
     pinned = json.load(open(os.path.join(ROOT, "gen_cases/codes.json")))
@@ -886,7 +922,8 @@ def c01(tier, seed, **kw):
 
 @prop("C02")
 def c02(tier, seed, **kw):
-    return instr_check("C02", tier, seed)
+    # deterministic carry / overflow boundary sweep over every two-operand ALU form (both carry-in values)
+    return instr_check("C02", tier, seed, extra_cases=instr_gen.generate_pair_sweep(harnesses()["release"], seed + 2))
 
 
 @prop("C03")
